@@ -17,6 +17,13 @@ Fixpoint join_comma (ls : list str) : str :=
   match ls with [] => [] | [l] => l | l :: r => l ++ [44%N; 32%N] ++ join_comma r end.
 
 Definition s_possible : str := [80;111;115;115;105;98;108;101;32;105;110;112;117;116;115;58;32]%N.  (* Possible inputs:  *)
+Fixpoint ins_pos (x : positive) (l : list positive) : list positive :=
+  match l with
+  | [] => [x]
+  | y :: r => if Pos.leb x y then x :: l else y :: ins_pos x r
+  end.
+Definition sort_pos (l : list positive) : list positive := fold_right ins_pos [] l.
+
 Definition s_expected : str := [69;120;112;101;99;116;101;100;32;115;121;109;98;111;108;58;32]%N.   (* Expected symbol:  *)
 Definition s_empty : str := [69;109;112;116;121;32;105;110;112;117;116]%N.                          (* Empty input *)
 
@@ -35,7 +42,9 @@ Definition message (T : tables) (cls : positive -> tclass) (ets : list etok) : o
         let badpos := match e_bad e with Some (LTok t) => Some (Pos.to_nat (tid t) - 1) | _ => None end in
         let bad := match badpos with Some i => match nth_error ets i with Some b => Some (i, b) | None => None end | None => None end in
         let '(msgs, _, _) := error_location ets (option_map snd bad) in
-        let sug := make_suggestion cls (accepts T) ets bad (e_expected e) in
+        (* make_suggestion walks sorted(expected_tokens): terminals are numbered in alphabetical order by the translator
+           (gen_tables.symbol_numbering), so ascending numbers are that order *)
+        let sug := make_suggestion cls (accepts T) ets bad (sort_pos (e_expected e)) in
         let tail := match sug with
                     | [] => []
                     | [x] => [s_expected ++ quote x]
